@@ -197,6 +197,12 @@ func isolated(h Handler, self string, c []byte, to time.Duration) []byte {
 	if timedOut {
 		se.WriteString("\n[deadline exceeded three times, last deadline " + (4 * to).String() + "]")
 	}
+	if strings.Contains(se.String(), "panic: harness:") {
+		// the harness itself gave up on this case (its own renderer or its use of git failed): that says nothing
+		// about the code under test, so it must never become an observation
+		fmt.Fprintf(os.Stderr, "harness fault (no verdict): %s\n", tail(se.String(), 2000))
+		os.Exit(2)
+	}
 	if h.Abnormal == nil {
 		fmt.Fprintf(os.Stderr, "case process failed (timeout=%v): %v\n%s\n", timedOut, err, tail(se.String(), 2000))
 		os.Exit(2)
